@@ -20,7 +20,7 @@
 (* stack without WithHardlinkReset (a seeded variant applies it only when   *)
 (* the outermost layer is the filter): rejected as well.                    *)
 (***************************************************************************)
-EXTENDS Integers, Sequences, FiniteSets, TLC
+EXTENDS Integers, Sequences, FiniteSets, TLC, Json, IOUtils
 CONSTANTS N, ResetOverwrites, NoReset
 
 Files == 1..N
@@ -68,4 +68,18 @@ ResetRule == i > N =>
 \* 4. the receiver's Hardlinks validator
 ValidatorAccepts == i > N =>
   \A k \in DOMAIN out : out[k].l # 0 => \E j \in 1..(k - 1) : out[j].p = out[k].l /\ out[j].l = 0
+
+\* ---- case generation for the hlcases driver (configuration _gen): one file per (inode partition, status vector) with the
+\* stream the ALGORITHM model ends in; the driver builds the files (hidden = excluded by name, pruned = inside an excluded
+\* directory), walks NewFS -> NewFilterFS -> WithHardlinkReset for real and the monitor compares the link names
+RECURSIVE Digits(_, _)
+Digits(f, k) == IF k > N THEN "" ELSE ToString(f[k]) \o Digits(f, k + 1)
+StCode(k) == IF k > N THEN "" ELSE (CASE st[k] = "reported" -> "r" [] st[k] = "hidden" -> "h" [] OTHER -> "p")
+RECURSIVE StCodes(_)
+StCodes(k) == IF k > N THEN "" ELSE StCode(k) \o StCodes(k + 1)
+GenCases ==
+  (i > N) =>
+     ndJsonSerialize(IOEnv.VERIF_GEN_DIR \o "/hlcase_" \o Digits(grp, 1) \o "_" \o StCodes(1) \o ".ndjson",
+        <<[name |-> Digits(grp, 1) \o "_" \o StCodes(1), grp |-> [k \in 1..N |-> grp[k]], st |-> [k \in 1..N |-> st[k]],
+           out |-> [k \in DOMAIN out |-> [p |-> out[k].p, l |-> out[k].l]]]>>)
 =============================================================================
